@@ -1,5 +1,6 @@
 import Ptn.C14.Model
 import Ptn.C14.Lemmas
+import Ptn.C14.Canonical
 /-! Property theorems for C14 (bipartite vertex cover).  Only property theorems and non-vacuity
 examples live here; helper lemmas are in `Lemmas.lean` and the files it imports.
 
@@ -335,6 +336,148 @@ theorem mvc_correct_input (nU nV : Nat) (es : List (Nat × Nat)) (hU : 0 < nU) (
     · intro cu' cv' h
       exact o2 cu' cv' (fun u v huv => h (u, v) ((hedge u v).1 huv))
 
+/-! ### (f) iteration order of the Python sets
+
+`minimumVertexCoverOrd o g` is `minimum_vertex_cover` with the enumeration order of its three sets
+(`for u in alist`, `list(u_cover)`, `list(v_cover)`) given by `o`; the functions used everywhere
+above are the instance "ascending".  The returned pair of lists - order inside the lists included,
+because of the final `sorted` - and every error exit are the same for all enumerations. -/
+
+/-- The `for u in alist` loop: any two enumerations of the same start set (repetitions allowed,
+    any start set, any list `M`, any graph) produce the same `(u_cover, v_cover)`, and run out of
+    fuel in the same cases. -/
+theorem koenig_start_order_independent (g : Graph) (M : List (Nat × Nat)) (us us' : List Nat)
+    (h : ∀ x, x ∈ us ↔ x ∈ us') :
+    coverLoop g M us (List.range g.nU, []) = coverLoop g M us' (List.range g.nU, []) :=
+  coverLoop_congr g M h List.pairwise_lt_range (by simp)
+
+/-- `sorted(list(s))` does not depend on the order in which the set `s` is enumerated. -/
+theorem sorted_enumeration_independent (s l : List Nat) (hs : s.Pairwise (· < ·)) (hl : l.Perm s) :
+    pySorted l = s :=
+  pySorted_eq_of_perm hs hl
+
+/-- Goal 1: for every graph (well-formed or not) and every enumeration order of the three sets,
+    `minimum_vertex_cover` returns exactly what the ascending-order model returns: the same
+    internal matching, the same two lists (same order inside the lists), the same error exit. -/
+theorem mvc_order_independent (o : SetOrder) (ho : o.Valid) (g : Graph) :
+    minimumVertexCoverOrd o g = minimumVertexCover g :=
+  minimumVertexCoverOrd_eq o ho g
+
+/-- The same with hypotheses only at the sets that occur in the run: the start set may be
+    enumerated in any order (even with repetitions), the two result sets in any order. -/
+theorem mvc_order_independent_at (o : SetOrder) (g : Graph) (M : List (Nat × Nat)) (cu cv : List Nat)
+    (h : minimumVertexCover g = .ok (M, cu, cv))
+    (ha : ∀ x, x ∈ o.alist (freeLeft g M) ↔ x ∈ freeLeft g M)
+    (hu : (o.ucover cu).Perm cu) (hv : (o.vcover cv).Perm cv) :
+    minimumVertexCoverOrd o g = .ok (M, cu, cv) := by
+  obtain ⟨hM, hc⟩ := mvc_ok_unfold h
+  unfold minimumVertexCoverOrd
+  rw [hM]
+  simp only
+  rw [coverOfOrd_eq o g M ha
+    (fun a b hab => by rw [hc] at hab; cases hab; exact hu)
+    (fun a b hab => by rw [hc] at hab; cases hab; exact hv), hc]
+
+/-- Hence `mvc_correct` holds for every iteration order Python may choose. -/
+theorem mvc_correct_any_order (o : SetOrder) (ho : o.Valid) (g : Graph) (hg : g.WF) :
+    ∃ M cu cv, minimumVertexCoverOrd o g = .ok (M, cu, cv) ∧ hopcroftKarp g = .ok M ∧
+      IsMatching g.edge M ∧ IsCover g.edge cu cv ∧ (∀ u ∈ cu, u < g.nU) ∧ (∀ v ∈ cv, v < g.nV) ∧
+      cu.Pairwise (· < ·) ∧ cv.Pairwise (· < ·) ∧ cu.length + cv.length = M.length ∧
+      (∀ M', IsMatching g.edge M' → M'.length ≤ M.length) ∧
+      (∀ cu' cv', IsCover g.edge cu' cv' → cu.length + cv.length ≤ cu'.length + cv'.length) := by
+  rw [mvc_order_independent o ho g]
+  exact mvc_correct g hg
+
+/-! ### (g) order of the adjacency lists (order of the constructor's edge list)
+
+The adjacency lists are Python lists; their order is the order of first appearance in the edge
+list given to the constructor, and it does influence which maximum matching Hopcroft-Karp finds
+(see the example below).  It influences neither the size of the matching nor - which is more than
+the property asks - the returned cover. -/
+
+/-- Goal 2: two well-formed graphs with the same edge relation (adjacency lists in any order, even
+    different `num_u` / `num_v` as long as the edges agree) get matchings of the same size. -/
+theorem hk_matching_maximum_order_independent (g g' : Graph) (hg : g.WF) (hg' : g'.WF)
+    (hE : ∀ u v, g.edge u v ↔ g'.edge u v) (M M' : List (Nat × Nat))
+    (h : hopcroftKarp g = .ok M) (h' : hopcroftKarp g' = .ok M') : M.length = M'.length := by
+  obtain ⟨M0, _, _, _, h0, hM0, _, _, _, _, _, _, o0, _⟩ := mvc_correct g hg
+  obtain ⟨M1, _, _, _, h1, hM1, _, _, _, _, _, _, o1, _⟩ := mvc_correct g' hg'
+  rw [h] at h0; cases h0
+  rw [h'] at h1; cases h1
+  have a := o0 M' (hM1.congr (fun u v => (hE u v).2))
+  have b := o1 M (hM0.congr (fun u v => (hE u v).1))
+  omega
+
+/-- The returned cover is the extreme minimum cover: every cover of the same (minimum) size has
+    its left part inside the returned left part and contains the returned right part. -/
+theorem koenig_cover_extremal (g : Graph) (hg : g.WF) (M : List (Nat × Nat)) (cu cv : List Nat)
+    (h : minimumVertexCover g = .ok (M, cu, cv)) (cu' cv' : List Nat)
+    (hC : IsCover g.edge cu' cv') (hsz : cu'.length + cv'.length = M.length)
+    (hr : ∀ x ∈ cu', x < g.nU) :
+    (∀ x, x ∈ cu' → x ∈ cu) ∧ (∀ y, y ∈ cv → y ∈ cv') := by
+  obtain ⟨hM0, hc⟩ := mvc_ok_unfold h
+  have hM := hk_matching_valid g M hM0
+  obtain ⟨hl, _⟩ := coverOf_ok hc
+  obtain ⟨hcu, hcv, _⟩ := coverLoop_cover g M hg hM hl
+  obtain ⟨e1, e2⟩ := koenig_extremal g M hg hM cu' cv' hC hsz
+  exact ⟨fun x hx => (hcu x).2 ⟨hr x hx, fun hz => e1 x hz hx⟩, fun y hy => e2 y ((hcv y).1 hy)⟩
+
+/-- The cover part gives the same pair for *any* two valid matchings of two graphs with the same
+    left side and the same edges for which it returns normally. -/
+theorem koenig_cover_canonical (g g' : Graph) (hg : g.WF) (hg' : g'.WF) (hn : g.nU = g'.nU)
+    (hE : ∀ u v, g.edge u v ↔ g'.edge u v) (M M' : List (Nat × Nat))
+    (hM : IsMatching g.edge M) (hM' : IsMatching g'.edge M') (cu cv cu' cv' : List Nat)
+    (h : coverOf g M = .ok (cu, cv)) (h' : coverOf g' M' = .ok (cu', cv')) :
+    cu = cu' ∧ cv = cv' := by
+  obtain ⟨a1, a2⟩ := coverOf_dominates g g' hg hg' hn hE M M' hM hM' h h'
+  obtain ⟨b1, b2⟩ := coverOf_dominates g' g hg' hg hn.symm (fun u v => (hE u v).symm) M' M hM' hM h' h
+  obtain ⟨_, _, _, s1, s2, _⟩ := cover_ok_sound g hg M hM cu cv h
+  obtain ⟨_, _, _, t1, t2, _⟩ := cover_ok_sound g' hg' M' hM' cu' cv' h'
+  exact ⟨sorted_ext s1 t1 (fun x => ⟨b1 x, a1 x⟩), sorted_ext s2 t2 (fun y => ⟨a2 y, b2 y⟩)⟩
+
+/-- The pair of lists returned by `minimum_vertex_cover` is determined by the graph (left side
+    size and edge set) alone: it depends neither on the order of the adjacency lists nor on which
+    maximum matching was found.  Only the internal matching may differ (its size may not). -/
+theorem mvc_cover_graph_determined (g g' : Graph) (hg : g.WF) (hg' : g'.WF) (hn : g.nU = g'.nU)
+    (hE : ∀ u v, g.edge u v ↔ g'.edge u v) (M M' : List (Nat × Nat)) (cu cv cu' cv' : List Nat)
+    (h : minimumVertexCover g = .ok (M, cu, cv)) (h' : minimumVertexCover g' = .ok (M', cu', cv')) :
+    cu = cu' ∧ cv = cv' ∧ M.length = M'.length := by
+  obtain ⟨hM0, hc⟩ := mvc_ok_unfold h
+  obtain ⟨hM0', hc'⟩ := mvc_ok_unfold h'
+  obtain ⟨e1, e2⟩ := koenig_cover_canonical g g' hg hg' hn hE M M' (hk_matching_valid g M hM0)
+    (hk_matching_valid g' M' hM0') cu cv cu' cv' hc hc'
+  exact ⟨e1, e2, hk_matching_maximum_order_independent g g' hg hg' hE M M' hM0 hM0'⟩
+
+/-- End to end from the constructor arguments: two entry lists with the same members (any order,
+    any repetitions) give the same returned cover and matchings of the same size, for every
+    enumeration order of the sets. -/
+theorem mvc_input_order_independent (nU nV : Nat) (es es' : List (Nat × Nat)) (hU : 0 < nU)
+    (hV : 0 < nV) (hes : ∀ p ∈ es, p.1 < nU ∧ p.2 < nV) (hmem : ∀ p, p ∈ es ↔ p ∈ es')
+    (o o' : SetOrder) (ho : o.Valid) (ho' : o'.Valid) :
+    ∃ g g' M M' cu cv, mkGraph nU nV es = some g ∧ mkGraph nU nV es' = some g' ∧
+      minimumVertexCoverOrd o g = .ok (M, cu, cv) ∧ minimumVertexCoverOrd o' g' = .ok (M', cu, cv) ∧
+      M.length = M'.length := by
+  have hes' : ∀ p ∈ es', p.1 < nU ∧ p.2 < nV := fun p hp => hes p ((hmem p).2 hp)
+  have hsome := (mkGraph_isSome_iff nU nV es).2 ⟨hU, hV, hes⟩
+  have hsome' := (mkGraph_isSome_iff nU nV es').2 ⟨hU, hV, hes'⟩
+  cases hg0 : mkGraph nU nV es with
+  | none => rw [hg0] at hsome; simp at hsome
+  | some g =>
+    cases hg0' : mkGraph nU nV es' with
+    | none => rw [hg0'] at hsome'; simp at hsome'
+    | some g' =>
+      obtain ⟨hg, e1, _, hedge⟩ := mkGraph_spec nU nV es g hg0
+      obtain ⟨hg', e1', _, hedge'⟩ := mkGraph_spec nU nV es' g' hg0'
+      obtain ⟨M, cu, cv, hmvc, _⟩ := mvc_correct g hg
+      obtain ⟨M', cu', cv', hmvc', _⟩ := mvc_correct g' hg'
+      have hE : ∀ u v, g.edge u v ↔ g'.edge u v := fun u v => by
+        rw [hedge, hedge', hmem]
+      obtain ⟨rfl, rfl, hlen⟩ := mvc_cover_graph_determined g g' hg hg' (by rw [e1, e1']) hE
+        M M' cu cv cu' cv' hmvc hmvc'
+      refine ⟨g, g', M, M', cu, cv, rfl, rfl, ?_, ?_, hlen⟩
+      · rw [mvc_order_independent o ho g]; exact hmvc
+      · rw [mvc_order_independent o' ho' g']; exact hmvc'
+
 /-! ### Non-vacuity: concrete instances -/
 
 /-- the 3x3 "path" graph 0-0, 1-0, 1-1, 2-1, 2-2 with a duplicated entry and an isolated vertex -/
@@ -382,5 +525,79 @@ example : Consistent exStar HK.init ∧ HK.init.mU 1 = none := ⟨init_consisten
 example : (bfs exStar HK.init).map (fun d => (d none, d (some 0), d (some 1))) = some (1, 0, 0) := by rfl
 example : (hkRun exStar).toOption.map (fun s => (s.mU 0, s.mU 1, s.mV 0, s.dist none, s.dist (some 0), s.dist (some 1)))
     = some (some 0, none, some 0, 3, 1, 0) := by rfl
+
+/-! ### Non-vacuity for (f) and (g) -/
+
+/-- an enumeration policy different from "ascending" at all three sites -/
+def exOrder : SetOrder := ⟨List.reverse, rotate1, oddsFirst⟩
+
+example : exOrder.Valid := ⟨List.reverse_perm, rotate1_perm, oddsFirst_perm⟩
+example : ∀ k, (⟨policy k, policy (k + 1), policy (k + 2)⟩ : SetOrder).Valid :=
+  fun k => ⟨policy_perm k, policy_perm (k + 1), policy_perm (k + 2)⟩
+
+/-- two free left vertices (1 and 4) whose explorations are disjoint; the cover uses both sides -/
+def exTwoFree : Graph :=
+  (mkGraph 5 3 [(0, 0), (1, 0), (2, 1), (3, 1), (3, 2), (4, 1)]).getD (Graph.empty 1 1)
+
+example : mkGraph 5 3 [(0, 0), (1, 0), (2, 1), (3, 1), (3, 2), (4, 1)] = some exTwoFree := by decide
+example : hopcroftKarp exTwoFree = .ok [(0, 0), (2, 1), (3, 2)] := by rfl
+example : freeLeft exTwoFree [(0, 0), (2, 1), (3, 2)] = [1, 4] ∧
+    exOrder.alist [1, 4] = [4, 1] := by decide
+-- the two starts visit different vertices, so the intermediate values of `u_cover` / `v_cover`
+-- do depend on the order; the final ones do not
+example : explore exTwoFree [(0, 0), (2, 1), (3, 2)] exTwoFree.exploreFuel 1 ⟨[], []⟩ = some ⟨[1, 0], [0]⟩ ∧
+    explore exTwoFree [(0, 0), (2, 1), (3, 2)] exTwoFree.exploreFuel 4 ⟨[], []⟩ = some ⟨[4, 2], [1]⟩ := by
+  constructor <;> rfl
+example : coverLoop exTwoFree [(0, 0), (2, 1), (3, 2)] [1, 4] (List.range 5, []) = some ([3], [0, 1]) ∧
+    coverLoop exTwoFree [(0, 0), (2, 1), (3, 2)] [4, 1, 4] (List.range 5, []) = some ([3], [0, 1]) := by
+  constructor <;> rfl
+example : exOrder.ucover [0, 1, 2, 3] = [1, 2, 3, 0] ∧ pySorted [1, 2, 3, 0] = [0, 1, 2, 3] ∧
+    exOrder.vcover [0, 1, 2, 3] = [1, 3, 0, 2] ∧ pySorted [1, 3, 0, 2, 3] = [0, 1, 2, 3, 3] := by decide
+example : minimumVertexCover exTwoFree = .ok ([(0, 0), (2, 1), (3, 2)], [3], [0, 1]) ∧
+    minimumVertexCoverOrd exOrder exTwoFree = .ok ([(0, 0), (2, 1), (3, 2)], [3], [0, 1]) := by
+  constructor <;> rfl
+-- hypotheses of `mvc_order_independent_at`
+example : (∀ x, x ∈ exOrder.alist [1, 4] ↔ x ∈ [1, 4]) ∧ (exOrder.ucover [3]).Perm [3] ∧
+    (exOrder.vcover [0, 1]).Perm [0, 1] :=
+  ⟨fun _ => (List.reverse_perm [1, 4]).mem_iff, rotate1_perm [3], oddsFirst_perm [0, 1]⟩
+-- an enumeration that is *not* valid changes the result (the hypothesis is needed)
+example : minimumVertexCoverOrd ⟨fun _ => [1], id, id⟩ exTwoFree = .error .assertion := by rfl
+
+/-- The order of the adjacency lists does change the internal matching … -/
+def exFork : Graph := (mkGraph 1 2 [(0, 0), (0, 1)]).getD (Graph.empty 1 1)
+def exFork' : Graph := (mkGraph 1 2 [(0, 1), (0, 0), (0, 1)]).getD (Graph.empty 1 1)
+
+example : mkGraph 1 2 [(0, 0), (0, 1)] = some exFork ∧
+    mkGraph 1 2 [(0, 1), (0, 0), (0, 1)] = some exFork' := by decide
+example : exFork.adjU = [[0, 1]] ∧ exFork'.adjU = [[1, 0]] := by decide
+-- … hypotheses of `hk_matching_maximum_order_independent` / `mvc_cover_graph_determined` /
+-- `mvc_input_order_independent`:
+example : ∀ p : Nat × Nat, p ∈ [(0, 0), (0, 1)] ↔ p ∈ [(0, 1), (0, 0), (0, 1)] := by
+  intro p
+  simp only [List.mem_cons, List.not_mem_nil, or_false]
+  constructor
+  · rintro (h | h) <;> simp [h]
+  · rintro (h | h | h) <;> simp [h]
+example : exFork.nU = exFork'.nU ∧ ∀ u v, exFork.edge u v ↔ exFork'.edge u v := by
+  refine ⟨rfl, fun u v => ?_⟩
+  rw [(mkGraph_spec 1 2 [(0, 0), (0, 1)] exFork (by decide)).2.2.2 u v,
+    (mkGraph_spec 1 2 [(0, 1), (0, 0), (0, 1)] exFork' (by decide)).2.2.2 u v]
+  simp only [List.mem_cons, List.not_mem_nil, or_false]
+  constructor
+  · rintro (h | h) <;> simp [h]
+  · rintro (h | h | h) <;> simp [h]
+-- … the matchings differ, their size and the returned cover do not
+example : minimumVertexCover exFork = .ok ([(0, 0)], [0], []) ∧
+    minimumVertexCover exFork' = .ok ([(0, 1)], [0], []) := by
+  constructor <;> rfl
+-- hypotheses of `koenig_cover_extremal` on `exGraph` (returned `([0,1,2], [])`): another minimum
+-- cover is `([1,2], [0])`, its left part is inside `[0,1,2]` and it contains the right part `[]`
+example : [1, 2].length + [0].length = [(0, 0), (1, 1), (2, 2)].length ∧ ∀ x ∈ [1, 2], x < exGraph.nU := by
+  decide
+-- hypotheses of `koenig_cover_canonical`: two different maximum matchings of `exFork`
+example : IsMatching exFork.edge [(0, 0)] ∧ IsMatching exFork.edge [(0, 1)] :=
+  ⟨⟨by decide, by decide, by decide⟩, ⟨by decide, by decide, by decide⟩⟩
+example : coverOf exFork [(0, 0)] = .ok ([0], []) ∧ coverOf exFork [(0, 1)] = .ok ([0], []) := by
+  constructor <;> rfl
 
 end Ptn.C14
